@@ -205,6 +205,32 @@ func runC07(c *bx.Ctx) {
 			}
 		}
 	}
+	// frames of 64 KiB and more with unregistered types: still one verbatim RawPacket
+	c.Space("dispatch-large-frames")
+	for _, pf := range [][2]int{{0, 0}, {192, 3}, {199, 31}, {208, 0}, {255, 31}, {205, 0}, {205, 2}, {205, 31}, {206, 0}, {206, 3}, {206, 31}} {
+		for _, words := range []int{0x3ffd, 0x3ffe, 0x3fff, 0x4000, 0x7fff, 0x8000, 0xbfff, 0xc000, 0xfffe} {
+			if !c.Mine() {
+				continue
+			}
+			f := frame(pf[0], pf[1], false, make([]byte, 4*words))
+			for i := 4; i < len(f); i++ {
+				f[i] = byte(i * 5)
+			}
+			ps, err, pan := safeDgram(append([]byte{}, f...))
+			c.T(1)
+			ok := pan == "" && err == nil && len(ps) == 1
+			if ok {
+				r, isRaw := ps[0].(*rtcp.RawPacket)
+				ok = isRaw && bytes.Equal([]byte(*r), f)
+			}
+			if !ok {
+				c.Report(keyJoin("C07/dispatch/large-frame", ptClass(pf[0], pf[1])), fmt.Sprintf("a well-framed %d-octet packet with unregistered PT=%d FMT=%d is not returned as one verbatim RawPacket", len(f), pf[0], pf[1]),
+					bx.Replay{Entry: "dgram", InputHex: bx.Hex(f[:64]), Ops: fmt.Sprintf("frame of %d octets (body byte i = i*5)", len(f)), Expected: "one verbatim RawPacket", Observed: fmt.Sprint(len(ps), " packets ", err, pan)})
+				continue
+			}
+			c.NT()
+		}
+	}
 	// (ii) foreign packets
 	c.Space("foreign")
 	opt, _, _ := ccfbReading()
@@ -253,6 +279,46 @@ func runC07(c *bx.Ctx) {
 				continue
 			}
 			c.NT()
+		}
+	}
+	// (ii') every type's own valid body under every foreign (PT, FMT) header: a well-formed packet
+	// of another (or of no registered) type that happens to carry this type's body layout
+	c.Space("foreign-headers-over-own-body")
+	for _, bd := range valid {
+		e := EntryByName("own:" + bd.typ)
+		if e == nil {
+			continue
+		}
+		for pt := 0; pt < 256; pt++ {
+			if !c.MineBlock(0) {
+				continue
+			}
+			for cnt := 0; cnt < 32; cnt++ {
+				if registered(pt, cnt) == bd.typ {
+					continue
+				}
+				// count-carrying types keep their count (it is content); FMT-keyed types try every FMT
+				if e.FMT < 0 && cnt != bd.count {
+					continue
+				}
+				c.Add(1)
+				f := frame(pt, cnt, bd.pbit, bd.bytes)
+				q, err, pan := safeOwn(bd.typ, f)
+				c.T(1)
+				if pan != "" {
+					c.Report(keyJoin("C07/foreign/panic", bd.typ, ptClass(pt, cnt)), bd.typ+" decoder panics on a foreign header over its own body layout", bx.Replay{Entry: e.Name, InputHex: bx.Hex(f), Expected: "error", Observed: "panic: " + pan})
+					continue
+				}
+				if err == nil {
+					rel := ptClass(pt, cnt)
+					if e.PT == pt {
+						rel = "same-pt-other-fmt"
+					}
+					c.Report(keyJoin("C07/foreign/accepted", bd.typ, rel), fmt.Sprintf("%s.Unmarshal accepts a packet with PT=%d FMT/count=%d", bd.typ, pt, cnt), bx.Replay{Entry: e.Name, InputHex: bx.Hex(f), Expected: "error", Observed: ref.Dump(q)})
+					continue
+				}
+				c.NT()
+			}
 		}
 	}
 	// (iii) own output dispatched back to the same type
